@@ -90,6 +90,10 @@ M = [
  ('r2_replay', 'semantic', 'lib/remote/apilistener.cpp', 'if (pmessage->Get("timestamp") <= peer_ts)\n\t\t\t\t\tcontinue;', 'if (pmessage->Get("timestamp") < peer_ts)\n\t\t\t\t\tcontinue;', 'the entry the peer already has is replayed again'),
  ('r2_replay', 'harmless', 'lib/remote/apilistener.cpp', '\t\t\t\t\tif (!secobj)\n\t\t\t\t\t\tcontinue;\n\n\t\t\t\t\tif (!target_zone->CanAccessObject(secobj))\n\t\t\t\t\t\tcontinue;', '\t\t\t\t\tif (!secobj || !target_zone->CanAccessObject(secobj))\n\t\t\t\t\t\tcontinue;', 'two tests merged'),
  ('r2_cleanup', 'semantic', 'lib/remote/apilistener.cpp', 'if (endpoint->GetLogDuration() >= 0 && ts < now - endpoint->GetLogDuration())', 'if (endpoint->GetLogDuration() > 0 && ts < now - endpoint->GetLogDuration())', 'log_duration 0 keeps files for ever'),
+ ('r2_tpremove', 'semantic', 'lib/icinga/timeperiod.cpp', 'if (segment->Get("begin") >= begin && segment->Get("begin") < end)\n\t\t\tsegment->Set("begin", end);', 'if (segment->Get("begin") > begin && segment->Get("begin") < end)\n\t\t\tsegment->Set("begin", end);', 'the comparison of the defect fixed earlier (a segment starting exactly at begin is not trimmed)'),
+ ('r2_tpremove', 'harmless', 'lib/icinga/timeperiod.cpp', 'if (segment->Get("end") < begin || segment->Get("begin") > end) {\n\t\t\tnewSegments->Add(segment);\n\t\t\tcontinue;\n\t\t}', 'if (!(segment->Get("end") >= begin && segment->Get("begin") <= end)) {\n\t\t\tnewSegments->Add(segment);\n\t\t\tcontinue;\n\t\t}', 'De Morgan'),
+ ('r2_tpadd', 'semantic', 'lib/icinga/timeperiod.cpp', 'if (segment->Get("end") >= begin && segment->Get("end") <= end) {\n\t\t\t\tsegment->Set("end", end);', 'if (segment->Get("end") > begin && segment->Get("end") <= end) {\n\t\t\t\tsegment->Set("end", end);', 'adjacent segments are no longer merged'),
+ ('r2_tppurge', 'semantic', 'lib/icinga/timeperiod.cpp', 'if (segment->Get("end") >= end)\n\t\t\tnewSegments->Add(segment);', 'if (segment->Get("end") > end)\n\t\t\tnewSegments->Add(segment);', 'a segment ending exactly at the purge instant is dropped'),
  ('is_child_of', 'unrecognised', 'lib/remote/zone.cpp', '\tZone::Ptr azone = this;\n', '\tZone::Ptr azone = GetParent();\n', 'call outside the binding environment: degrades'),
 ]
 
